@@ -519,6 +519,29 @@ func checkProperty(rc *runCtx, p, tier string, seed int, verif string, bl Baseli
 	// bounded stand-ins for functions outside the subset (never counted as proved)
 	bres := runBounded(rc.w.repo, verifRoot, p)
 	for _, br := range bres {
+		// cases the stand-in classifies under a key are findings only if that key is listed as open; otherwise violations
+		for _, key := range sortedKeys(br.Known) {
+			name := "bounded:" + br.Name + ":" + key
+			if kf, isOpen := open[name]; isOpen && kf.Property == p {
+				known = append(known, fmt.Sprintf("KNOWN-FINDING: property=%s obligation=%s %s", p, name, kf.What))
+				continue
+			}
+			// a stand-in may serve several properties: a keyed case listed as an open finding of another property
+			// belongs to that property's check, not to this one
+			elsewhere := false
+			for _, k := range kfs {
+				if k.Status == "open" && k.Obligation == name && k.Property != p {
+					elsewhere = true
+				}
+			}
+			if elsewhere {
+				continue
+			}
+			path := filepath.Join(verif, "replay", "bounded_"+p+"_"+br.Name+"_"+sanitize(key)+".json")
+			b, _ := json.MarshalIndent(map[string]any{"stand_in": br.Name, "key": key, "first_case": br.Known[key], "cmd": br.Cmd}, "", " ")
+			os.WriteFile(path, b, 0o644)
+			viols = append(viols, viol{name, "bounded-fail: " + br.Known[key], path, true})
+		}
 		if br.Status != "bounded-pass" {
 			path := filepath.Join(verif, "replay", "bounded_"+p+"_"+br.Name+".json")
 			b, _ := json.MarshalIndent(br, "", " ")
